@@ -28,10 +28,12 @@ TreeFor(parent, kids) ==
 Init == \E preset \in {"negra", "ptb"} :
           LET rules == RulesTab[preset] IN
           \E pi \in {q \in 1..Len(rules) : q % Stride = Offset} : \E k \in 1..MaxLen : \E i \in 1..k :
-          \E lc \in Listed2(rules, rules[pi][1]) : \E deco \in Decos :
+          \* the listed category at position i, or (lc = Unlisted) no listed child at all: the default
+          \* of the rule (first / last child) must still give exactly one head
+          \E lc \in Listed2(rules, rules[pi][1]) \cup {Unlisted} : \E deco \in Decos :
              c = [preset |-> preset,
                   tree |-> TreeFor(Upper(rules[pi][1]) \o deco,
-                                   [j \in 1..k |-> IF j = i THEN Upper(lc) \o deco ELSE Unlisted])]
+                                   [j \in 1..k |-> IF j = i /\ lc # Unlisted THEN Upper(lc) \o deco ELSE Unlisted])]
 Next == UNCHANGED c
 
 Op == [name |-> "mark_heads_by_rules", relc |-> <<>>, bare |-> FALSE, pos |-> 0, preset |-> c.preset,
